@@ -276,6 +276,70 @@ def first_broken_fact(ctx, res):
     return name or "(facts file did not build)"
 
 
+TIGHT_RE = (r"TIGHT method=(\w+) nthreads=(\d+) num_tasking_threads=(-?\d+) cycles_done=(\d+) body_runs=(\d+) ran_after_stop=(\d+) "
+            r"first_bad_cycle=(-?\d+) counter_when_stop_returned=(\d+) counter_before_next_start=(\d+) counter_resampled=(\d+) "
+            r"where=\[([^\]]*)\] lost_wakeups=(\d+) wall_ms=(\d+)")
+
+
+def tight_once(ctx, exe, method, n, cycles, budget_ms, env=None):
+    rc, out, err = ctx.run_exe(exe, ["stress", "tight", method, str(n), str(cycles), str(ctx.seed), str(budget_ms)], timeout=BIG, env=env)
+    return rc, out, re.search(TIGHT_RE, out)
+
+
+def tight_family(ctx, exe, boosted):
+    """unforced stress with an (almost) empty body -- it only increments a counter -- and tight start/stop cycles, through the
+    PUBLIC interface only (builds whatever the internals look like).  Reaches races whose window is inside one statement of the
+    loop thread.  Oracle by counters: unchanged between 'stop() returned' and the next 'start() called' (sampled three times,
+    re-sampled on a change); advancing after start().  Time-boxed; suspected findings are confirmed on a second run."""
+    rows = []
+    budget = ctx.pick(2500, 20000) * (6 if boosted else 1)
+    for method, n in (("THREAD", 2), ("TASK", 2), ("THREAD", 8), ("TASK", 8)):
+        if not ctx.sup.go("tight-cycle stress %s/%d" % (method, n), optional=False):
+            continue
+        rc, out, m = tight_once(ctx, exe, method, n, 10 ** 8, budget)
+        if ctx.sup.killed():
+            continue
+        cfg = {"mode": "stress-tight", "method": method, "nthreads": n, "stress_seed": ctx.seed, "budget_ms": budget,
+               "rerun": "%s stress tight %s %d 100000000 %d %d" % (exe, method, n, ctx.seed, budget)}
+        suspicious = (not m) or int(m.group(6)) > 0 or int(m.group(12)) > 0
+        first = m.group(0) if m else out.strip()[-400:]
+        if suspicious and ctx.sup.patient():
+            ctx.log("tight-cycle stress %s/%d: %s -- confirming on a second run (4x patience, 2x budget)" % (method, n, first[:260]))
+            rc, out, m2 = tight_once(ctx, exe, method, n, 10 ** 8, budget * 2, env=PATIENT)
+            ctx.cov.setdefault("stress_reruns", []).append({"config": cfg, "first": first, "second": m2.group(0) if m2 else out.strip()[-400:]})
+            if ctx.sup.killed():
+                continue
+            if m and int(m.group(6)) > 0 and not (m2 and int(m2.group(6)) > 0):
+                ctx.broken.append("tight-cycle stress %s/%d: the body counter moved after stop() had returned in one run (%s) but not in the "
+                                  "confirmation run" % (method, n, first))
+            m = m2
+        if not m:
+            if "STRESS-HANG" in out:
+                ctx.sup.hang_confirmed = True
+                ctx.violation("tight-cycle stress (%s launch, tasking system of %d threads): no progress at all for 120 s, confirmed on a second run"
+                              % (method, n), dict(cfg, observed=out.strip()[-800:], required="start(), stop() and the destructor terminate"))
+            elif rc != 124:
+                ctx.broken.append("tight-cycle stress %s/%d gave no result (rc=%s): %s" % (method, n, rc, out[-200:]))
+            continue
+        done, runs, bad, lost = int(m.group(4)), int(m.group(5)), int(m.group(6)), int(m.group(12))
+        ctx.count(done)
+        rows.append({"method": method, "nthreads": n, "cycles_done": done, "body_runs": runs, "ran_after_stop": bad, "lost_wakeups": lost,
+                     "budget_ms": budget, "wall_ms": int(m.group(13))})
+        if done > 100 and runs > done:
+            ctx.nontriv("tight %s %d" % (method, n))
+        if bad:
+            ctx.violation("tight start/stop cycles with an empty (counter-only) body, %s launch, tasking system of %d threads: the body ran after "
+                          "stop() had returned -- first in cycle %s the counter was %s when stop() returned, %s before the next start() (%s), %s "
+                          "when re-sampled 200 us later; confirmed on a second run"
+                          % (method, n, m.group(7), m.group(8), m.group(9), m.group(11), m.group(10)),
+                          dict(cfg, observed=m.group(0), first_run=first, required=ORACLE_TEXT["stop_safe"][1]))
+        elif lost:
+            ctx.violation("tight start/stop cycles with an empty body, %s launch, %d threads: after start() returned the loop thread stayed blocked "
+                          "(kernel state S, no CPU time) and the counter did not advance, %d time(s); confirmed on a second run" % (method, n, lost),
+                          dict(cfg, observed=m.group(0), first_run=first, required=ORACLE_TEXT["start_progress"][1]))
+    ctx.cov["stress_tight"] = rows
+
+
 METHODS, SIZES = ("THREAD", "TASK", "AUTO"), (0, 2, 8)     # 0 = tasking system not initialised
 
 
@@ -424,6 +488,11 @@ def run(ctx):
                     ctx.cxx(["harness.cpp"], "harness_tbb", backend="tbb", sanitize=None))
             rc, out, m = launch_once(ctx, exe2, doc["method"], doc["nthreads"], {"C03_NOHOLD": "1"} if doc.get("nohold") else None)
             print(out.strip() + "\n" + getattr(ctx, "c03_err", "")[:1500])
+        elif doc.get("mode") == "stress-tight":
+            exe3 = ctx.cxx(["stress.cpp"], "stress_tbb", backend="tbb", sanitize=None, opt="-O2")
+            rc, out, err = ctx.run_exe(exe3, ["stress", "tight", doc["method"], str(doc["nthreads"]), "100000000", str(doc["stress_seed"]),
+                                             str(doc["budget_ms"])], timeout=BIG)
+            print(out.strip())
         elif exe and doc.get("mode") == "stress":
             rc, out, err = ctx.run_exe(exe, ["stress", doc["launch"], str(doc["cycles"]), str(doc["stress_seed"]), str(doc["inject_delays"]),
                                              str(doc.get("budget_ms", 600000))], timeout=BIG)
@@ -450,9 +519,10 @@ def run(ctx):
             return _viol(what + "  [source fact broken: %s]" % broken_fact, replay, found_input=found_input, signature=signature)
         ctx.violation = violation_with_fact
     model = ctx.extract()
-    exe, exe_tbb, exe_asan = ctx.cxx_many([dict(sources=["harness.cpp"], out="harness", backend="omp", sanitize=None),
-                                           dict(sources=["harness.cpp"], out="harness_tbb", backend="tbb", sanitize=None),
-                                           dict(sources=["harness.cpp"], out="harness_tbb_asan", backend="tbb", sanitize="asan")])
+    exe, exe_tbb, exe_asan, exe_st = ctx.cxx_many([dict(sources=["harness.cpp"], out="harness", backend="omp", sanitize=None),
+                                                   dict(sources=["harness.cpp"], out="harness_tbb", backend="tbb", sanitize=None),
+                                                   dict(sources=["harness.cpp"], out="harness_tbb_asan", backend="tbb", sanitize="asan"),
+                                                   dict(sources=["stress.cpp"], out="stress_tbb", backend="tbb", sanitize=None, opt="-O2")])
     ctx.trusted += [
         "interleaving semantics given to the C++ primitives in coq/C03/Model.v: seq_cst std::atomic load/store = one atomic step of a "
         "sequentially consistent interleaving; std::mutex = mutual exclusion; condition_variable::wait(lock,pred) = while(!pred){atomically "
@@ -474,9 +544,16 @@ def run(ctx):
         "17 model edges per launch method (controller locks the mutex while a notified sleeper has not yet re-locked) cannot be forced: "
         "on the real code the woken thread re-locks on its own; they are covered by the Coq theorems only",
     ]
-    if not model or not exe or not exe_tbb or not exe_asan:
-        return
     ctx.run_exe = ctx.sup.run          # every child from here on: global budget, process-group kill, heartbeat
+    boosted = broken_fact is not None   # a source fact is broken: the stress families get a larger budget before giving up
+    if not model or not exe or not exe_tbb or not exe_asan:
+        # the harness that reaches into AsyncLoop's private state no longer builds against this tree (recorded as broken by
+        # ctx.cxx): the public-interface stress family still does
+        ctx.log("harness.cpp does not build against this tree -- forced schedules impossible; running the public-interface stress family")
+        ctx.cov["forced"] = "NOT POSSIBLE: harness/C03/harness.cpp (private state, hooks) does not compile against this tree"
+        if exe_st:
+            tight_family(ctx, exe_st, True)
+        return
     rc, out, err = ctx.run_exe(exe, ["probe"], timeout=BIG)
     hooks = "HOOKS=1" in out
     ctx.cov["hooks_present"] = hooks
@@ -716,9 +793,13 @@ def run(ctx):
     launch_memory_safety(ctx, exe_asan)
 
     # ------------------------------------------------------------------ unforced stress
+    if exe_st:
+        tight_family(ctx, exe_st, boosted)
     st = []
     n_plain, n_inj = ctx.pick(20000, 200000), ctx.pick(4000, 30000)
-    budget = ctx.pick(5000, 60000)    # ms per configuration (time box; the number of cycles done is reported)
+    budget = ctx.pick(5000, 60000) * (4 if boosted else 1)    # ms per configuration (time box; the number of cycles done is reported)
+    if boosted:
+        n_plain, n_inj = n_plain * 10, n_inj * 10
     for l in ("T", "K"):
         for (n, inj) in ((n_plain, 0), (n_inj, 1)):
             if not ctx.sup.go("stress launch %s inject=%d" % (l, inj), optional=False):
